@@ -15,7 +15,7 @@ EXPLANATION = (
     "(read_more): drain(0..offset) is followed by offset = 0 on the same path and the buffer grows only on the offset == 0 branch.  "
     "R4 (tick typestate, structural part): every construction of Item::TickStart is paired with a store in_tick = true and every "
     "Item::TickEnd with in_tick = false; all stores to `tick` take their value from checked_add; positions and inputs accumulate "
-    "through wrapping_add.  R4b: the implicit tick test is `previous cid >= cid`, a TICK_SKIP resets the remembered client id (doc/teehistorian.md pseudo-code), and INPUT_NEW overwrites the stored input.  R5: every reachable panic site is discharged or reviewed.  Not decided: equality of item sequences "
+    "through wrapping_add.  R4b: the implicit tick test is `previous cid >= cid`, a TICK_SKIP resets the remembered client id (doc/teehistorian.md pseudo-code), and INPUT_NEW overwrites the stored input.  R4c: tick boundaries ahead of a record are emitted under the exact conditions (not TICK_SKIP, not FINISH, outside a tick; FINISH inside a tick; the implicit-advance closure).  R5: every reachable panic site is discharged or reviewed.  Not decided: equality of item sequences "
     "across splittings as such, and the tick numbers against doc/teehistorian.md (value level)."
 )
 ASSUMPTIONS = ["the read callback returns Some(n > 0) or None (end of stream)", "reviewed table lines confirmed by reading the code"]
@@ -31,6 +31,7 @@ def run(ctx, rep):
     read_more(ctx.prog, rep)
     typestate(ctx.prog, rep)
     implicit_tick_and_inputs(ctx.prog, rep)
+    tick_boundary_conditions(ctx.prog, rep)
 
 
 def _offset_stores(body, ir):
@@ -311,3 +312,41 @@ def implicit_tick_and_inputs(prog, rep):
            "inputs.insert(cid, record.new)" if ok else
            "no unconditional inputs.insert(cid, new) for INPUT_NEW: a re-used client id keeps the previous player's input and later diffs accumulate on it",
            b.loc())
+
+
+def tick_boundary_conditions(prog, rep):
+    """R4c: the exact conditions under which Reader::read emits tick boundaries ahead of a record: a TickStart when a record
+    other than TICK_SKIP / FINISH arrives outside a tick; a TickEnd when FINISH arrives inside one; a TickEnd for the implicit
+    advance when the closure (R4b) says so for a player record"""
+    from .common import holds_at, want_relations
+    rule = "R4c-tick-boundary-conditions"
+    b = prog.one("libtw2_teehistorian::raw::Reader::read")
+    ir = IR(b)
+    kind = prog.adt("libtw2_teehistorian::format::item::Kind")
+    disc = {v["name"]: int(v["discr"]) for v in kind["variants"]}
+    def kb(name):
+        return "bytes:" + disc[name].to_bytes(kind["size"], "little").hex()
+    n = 0
+    for bi in sorted(b.live):
+        for si, st in enumerate(b.blocks[bi]["st"]):
+            if st["k"] != "assign" or st["r"]["k"] != "agg" or st["r"].get("variant") not in ("TickStart", "TickEnd"):
+                continue
+            rels = holds_at(ir, bi)
+            at = b.loc(st.get("ln"))
+            txts = " ; ".join(show(strip_sites(r[1] if r[0] == "bool" else r[0])) for r in rels)
+            if "read_item" in txts:
+                continue            # the explicit TICK_SKIP arm: decided by the typestate rule R4
+            n += 1
+            if st["r"].get("variant") == "TickStart":
+                want_relations(rep, rule, "TickStart ahead of a record", rels,
+                               [("in_tick", "bool", False), ("item_kind", "Ne", kb("TickSkip")), ("item_kind", "Ne", kb("Finish"))], at,
+                               "a tick is opened for a record that is neither TICK_SKIP nor FINISH, outside a tick")
+            elif "player_cid" in txts and "prev_player_cid" in txts:
+                want_relations(rep, rule, "TickEnd for the implicit advance", rels,
+                               [("prev_player_cid", "bool", True), ("player_cid", "bool", True)], at,
+                               "the implicit advance closes the tick when the record has a client id and the comparison closure says so")
+            else:
+                want_relations(rep, rule, "TickEnd ahead of FINISH", rels,
+                               [("in_tick", "bool", True), ("item_kind", "Eq", kb("Finish"))], at,
+                               "an open tick is closed before FINISH is reported")
+    rep.floor(rule, n, 3, "tick boundaries emitted ahead of a record in Reader::read")
